@@ -408,7 +408,7 @@ def judge_requests(run, reqs, label):
     """inst.ok on recorded requests; every rejection is a failing input"""
     if not reqs:
         return 0
-    answers = common.run_driver([{k: v for k, v in rq.items() if k != "meta"} for rq in reqs])
+    answers = common.run_driver([{k: v for k, v in rq.items() if k not in ("meta", "_rejected")} for rq in reqs])
     nbad = 0
     for rq, a in zip(reqs, answers):
         if "error" in a:
@@ -424,6 +424,7 @@ def judge_requests(run, reqs, label):
                   if a["r"] == "shape-only" else "rejected")
         if a["r"] is not True and a["r"] != "shape-only":
             nbad += 1
+            rq["_rejected"] = True
             sig = failure_signature(a["r"], meta)
             run.tally("inst_rejections", sig + "|" + meta.get("origin", "?"))
             report(run, {"kind": "inst", "request": rq, "fails": a["r"], "text": meta.get("text"),
@@ -461,6 +462,35 @@ def stream_witness(run):
             set_dis(old)
             rec.uninstall()
         reqs += rec.requests
+    # second recorded finding: Dir2<W, T : W, Y : W, Z : T> with the request Z := String: W is chosen freely (the
+    # code only looks one level down for requests), Y is derived from it, then the request is propagated upwards
+    # (W := String) and Y is left outside its bound
+    reqs2, hits2 = [], 0
+    bt = gen_types.factory("kotlin")
+    w = tp.TypeParameter("W", tp.Invariant, None)
+    t_ = tp.TypeParameter("T", tp.Invariant, w)
+    y = tp.TypeParameter("Y", tp.Invariant, w)
+    z = tp.TypeParameter("Z", tp.Invariant, t_)
+    con2 = tp.TypeConstructor("Dir2", [w, t_, y, z], [bt.get_any_type()])
+    types = [t for t in bt.get_non_nothing_types() if not t.is_type_constructor()]
+    rec = inst_lib.Recorder(bt.get_any_type(), limit=10 ** 6, origin="witness2:kotlin")
+    rec.install()
+    try:
+        for s in range(40):
+            utils.random.r.seed(s)
+            _t, sigma = tu.instantiate_type_constructor(con2, list(types), type_var_map={z: bt.get_string_type()},
+                                                        variance_choices=None)
+            if not inst_lib.refsub_sub(inst_lib.py_core(sigma[y]), inst_lib.py_core(sigma[w])):
+                hits2 += 1
+    finally:
+        rec.uninstall()
+    nbad2 = judge_requests(run, rec.requests, "witness")
+    run.tally("witness2", "reproduced" if hits2 else "not-reproduced")
+    run.log("witness Dir2<W, T : W, Y : W, Z : T>, Z := String requested: %d of %d results leave Y outside its bound "
+            "(inst.ok rejects %d)" % (hits2, len(rec.requests), nbad2))
+    if bool(hits2) != bool(nbad2):
+        run.broken.append({"obligation": "witness 2 (sibling of an overwritten assignment): inst.ok and the direct "
+                                         "observation disagree", "detail": [hits2, nbad2]})
     nbad = judge_requests(run, reqs, "witness")
     run.tally("witness", "reproduced" if hits else "not-reproduced")
     run.log("witness Dir<P : Number, Q : P, R>: %d of %d instantiations project P (inst.ok rejects %d)%s"
@@ -478,6 +508,9 @@ def stream_synthetic(run):
     # the independent judge on the same results
     njudge = 0
     for c in calls:
+        if any(rq.get("_rejected") for rq in c["requests"]):
+            run.tally("py_judge", "agrees-with-inst.ok-rejection" if c["judge"] else "silent-on-inst.ok-rejection")
+            continue
         for (p, clause) in c["judge"]:
             njudge += 1
             run.tally("py_judge", clause)
@@ -499,7 +532,7 @@ def stream_generator(run):
                 specs.append({"lang": lang, "seed": base + k, "switches": sw, "stages": ["gen"], "cap": cap,
                               "export": False, "plugins": ["plug_c08"]})
     results = check_C17.run_many_safe(specs)
-    reqs, ncalls, njudge, nprog = [], 0, 0, 0
+    reqs, ncalls, njudge, nprog, pairs = [], 0, 0, 0, []
     for r in results:
         pl = (r.get("plugins") or {}).get("plug_c08") or {}
         if "error" in pl:
@@ -515,7 +548,12 @@ def stream_generator(run):
         for rq in pl.get("requests", []):
             rq["meta"]["program"] = [r["spec"]["lang"], r["spec"]["seed"], list(r["spec"]["switches"])]
             reqs.append(rq)
-        for j, rq in zip(pl.get("judge", []), pl.get("requests", [])):
+        pairs.extend(zip(pl.get("judge", []), pl.get("requests", [])))
+    nbad = judge_requests(run, reqs, "generator")
+    for j, rq in pairs:
+        if True:
+            if rq.get("_rejected"):
+                continue
             for (p, clause) in j:
                 njudge += 1
                 run.tally("py_judge", clause)
@@ -523,7 +561,6 @@ def stream_generator(run):
                              "program": rq["meta"]["program"], "request": rq,
                              "note": "independent judge (inst_lib.py_judge) on the real objects"},
                        "instantiation:py-judge:" + clause)
-    nbad = judge_requests(run, reqs, "generator")
     run.log("generator: %d programs, %d _compute calls (%d recorded), inst.ok rejects %d, python judge flags %d"
             % (nprog, ncalls, len(reqs), nbad, njudge))
     if not reqs:
